@@ -18,13 +18,15 @@ CONFIGS += [(600, 0, False, False, 60), (600, 0, False, True, 60), (0, 0, False,
 def bounds(tier):
     if tier == "quick":
         return {"MinActs": "1", "MaxActs": "2", "MaxMnt": "1", "Starts": "{0,1,2}", "Durs": "{1,2}"}
-    return {"MinActs": "1", "MaxActs": "3", "MaxMnt": "1", "Starts": "{0,1,2,3}", "Durs": "{1,2}"}
+    return {"MinActs": "1", "MaxActs": "2", "MaxMnt": "1", "Starts": "{0,1,2,3}", "Durs": "{1,2}"}
 
 
 def bounds3(tier):
     """Second, coarser family for the quick tier: all networks with exactly three service trips of unit
     duration (tours and dummy tours of three nodes: gaps next to the first / last node)."""
-    return {"MinActs": "3", "MaxActs": "3", "MaxMnt": "0", "Starts": "{0,1,2}", "Durs": "{1}"}
+    if tier == "quick":
+        return {"MinActs": "3", "MaxActs": "3", "MaxMnt": "0", "Starts": "{0,1,2}", "Durs": "{1}"}
+    return {"MinActs": "3", "MaxActs": "3", "MaxMnt": "1", "Starts": "{0,1,2}", "Durs": "{1,2}"}
 
 
 def spec_hash():
